@@ -64,7 +64,7 @@ def gen_graph(rng, m, spec, c05):
         cls = getattr(m, rng.choice(names))
         o = cls()
         if hasattr(o, "uid"):
-            o.uid = i + 1
+            object.__setattr__(o, "uid", i + 1)      # also for frozen dataclasses
         objs.append(o)
     for o in objs:
         for f in all_fields(spec, type(o).__name__):
@@ -72,28 +72,28 @@ def gen_graph(rng, m, spec, c05):
             if f["name"] == "uid":
                 continue
             if k == "private":
-                setattr(o, f["name"], rng.randint(0, 9))
+                object.__setattr__(o, f["name"], rng.randint(0, 9))
             elif k in ("ref", "opt_ref", "self_opt"):
                 cands = [x for x in objs if isinstance(x, getattr(m, t))]
                 if cands and (k == "ref" or rng.random() < 0.7):
                     # prefer a small pool so that objects are shared; sometimes the object itself
-                    setattr(o, f["name"], rng.choice(cands[:3] if rng.random() < 0.5 else cands))
+                    object.__setattr__(o, f["name"], rng.choice(cands[:3] if rng.random() < 0.5 else cands))
                 else:
-                    setattr(o, f["name"], None)
+                    object.__setattr__(o, f["name"], None)
             elif k in ("list_ref", "self_list"):
                 cands = [x for x in objs if isinstance(x, getattr(m, t))]
-                setattr(o, f["name"], [rng.choice(cands) for _ in range(rng.choice([0, 0, 1, 2, 3]))] if cands else [])
+                object.__setattr__(o, f["name"], [rng.choice(cands) for _ in range(rng.choice([0, 0, 1, 2, 3]))] if cands else [])
             elif k == "set_ref":
                 cands = [x for x in objs if isinstance(x, getattr(m, t))]
-                setattr(o, f["name"], set(rng.choice(cands) for _ in range(rng.choice([0, 1, 2, 3]))) if cands else set())
+                object.__setattr__(o, f["name"], set(rng.choice(cands) for _ in range(rng.choice([0, 1, 2, 3]))) if cands else set())
             elif k == "type":
                 T = getattr(m, t)
                 subs = [getattr(m, nn) for nn in names if issubclass(getattr(m, nn), T)]
-                setattr(o, f["name"], rng.choice(subs))
+                object.__setattr__(o, f["name"], rng.choice(subs))
             elif k.startswith("opt_") and rng.random() < 0.4:
-                setattr(o, f["name"], None)
+                object.__setattr__(o, f["name"], None)
             else:
-                setattr(o, f["name"], scalar_value(rng, k, m, c05))
+                object.__setattr__(o, f["name"], scalar_value(rng, k, m, c05))
     return objs
 
 
